@@ -14,7 +14,12 @@
 //! through every form a caller uses (check_forms) and all forms must agree with the step-by-step
 //! run. Kid cycles with fan-out >= 2 x any Count run in child processes under a CPU budget per
 //! case, so that a form that never returns becomes a failing case with a replay. /Type behind a
-//! reference: exact verdict (open finding pagetree-indirect-type).
+//! reference: exact verdict (open finding pagetree-indirect-type). Stale max_id: every valid tree with
+//! every link / Type / Count behind 1-2 references under max_id 0, 1, median, highest-1, highest,
+//! highest+100 in four numberings (exact verdict). Near-miss /Type names (Page<NUL>, "Page ", page,
+//! Pag, Pagee ..) in memory and in files written by the harness's own serializer and loaded with
+//! load_mem (type safety judged by the /Type as written); valid trees respelled with #xx escapes
+//! and odd separators, loaded (exact verdict).
 use lopdf::{Dictionary, Document, Object, ObjectId};
 use serde_json::{json, Value};
 use std::collections::BTreeMap;
@@ -258,7 +263,7 @@ fn mutations(t: &Tree) -> Vec<Value> {
     let n = t.len();
     let first_page = (0..n).find(|i| t.kind[*i] == Kind::Page);
     for i in 0..n {
-        for what in ["missing", "Foo", "swap", "int"] {
+        for what in ["missing", "Foo", "swap", "int", "ref_wrong_gen", "ref_dangling", "ref_int", "ref_near_nul", "ref_alias_wrong_gen"] {
             out.push(json!({"m": "type", "node": i, "what": what}));
         }
         // Parent pointers that disagree with Kids (the enumeration follows Kids)
@@ -360,6 +365,44 @@ fn apply_mutation(t: &Tree, b: &mut Built, m: &Value) {
     let what = m["what"].as_str().unwrap_or("");
     let node = m["node"].as_u64().map(|x| x as usize);
     match m["m"].as_str().unwrap_or("") {
+        "type" if what.starts_with("ref_") => {
+            // /Type behind a reference that does not lead to the name Page / Pages: the right number under a generation
+            // no object has, a missing object, an integer, a near-miss name, an alias whose own target is stale
+            let i = node.unwrap();
+            let cur = match dict_mut(&mut b.doc, b.node[i]).get(b"Type") {
+                Ok(o) => o.clone(),
+                Err(_) => machinery("node without Type"),
+            };
+            let id = fresh_id(&mut b.doc);
+            let val = match what {
+                "ref_wrong_gen" => {
+                    b.doc.objects.insert(id, cur);
+                    Object::Reference((id.0, 1))
+                }
+                "ref_dangling" => {
+                    b.doc.max_id -= 1;
+                    dangling
+                }
+                "ref_int" => {
+                    b.doc.objects.insert(id, Object::Integer(3));
+                    Object::Reference(id)
+                }
+                "ref_near_nul" => {
+                    let mut n = cur.as_name().map(|n| n.to_vec()).unwrap_or_default();
+                    n.push(0);
+                    b.doc.objects.insert(id, Object::Name(n));
+                    Object::Reference(id)
+                }
+                "ref_alias_wrong_gen" => {
+                    b.doc.objects.insert(id, cur);
+                    let alias = fresh_id(&mut b.doc);
+                    b.doc.objects.insert(alias, Object::Reference((id.0, 7)));
+                    Object::Reference(alias)
+                }
+                _ => machinery("unknown type mutation"),
+            };
+            dict_mut(&mut b.doc, b.node[i]).set("Type", val);
+        }
         "type" => {
             let i = node.unwrap();
             let d = dict_mut(&mut b.doc, b.node[i]);
@@ -899,6 +942,9 @@ fn doc_of_case(case: &Value) -> (Document, Option<Tree>) {
             if !case["mutation"].is_null() {
                 apply_mutation(&t, &mut b, &case["mutation"]);
             }
+            if let Some(m) = case["max_id"].as_u64() {
+                b.doc.max_id = m as u32;
+            }
             (b.doc, Some(t))
         }
         Some("chain") => {
@@ -1383,6 +1429,7 @@ fn explore_valid(run: &Run, b: &Bounds, max_calls: &AtomicU64, watch: &Watch) {
         let opts = options(parent);
         let nv = n_variants(&opts);
         let (mut cases, mut nontrivial) = (0u64, Vec::<u64>::new());
+        let mut stale = 0u64;
         for v in 0..nv {
             let t = Tree::from_parents(parent, variant(&opts, v));
             for rev in [false, true] {
@@ -1396,6 +1443,16 @@ fn explore_valid(run: &Run, b: &Bounds, max_calls: &AtomicU64, watch: &Watch) {
                 if let Err(e) = watch.guarded(&case, || check_valid(&b.doc, &want, max_calls)) {
                     run.fail(None, with_doc(case, &b.doc), &e, "page_iter() = depth-first left-to-right Page leaves; get_pages() = that list numbered 1..n");
                 }
+                // the same document under one stale max_id (the four values in rotation over the typings)
+                let m = stale_values(&b.doc)[v % 4];
+                let mut d = b.doc.clone();
+                d.max_id = m;
+                let mut case = tree_case(&t, rev, None);
+                case["max_id"] = json!(m);
+                stale += 1;
+                if let Err(e) = watch.guarded(&case, || check_valid_basic(&d, &want, max_calls)) {
+                    run.fail(None, with_doc(case, &d), &format!("max_id = {}: {}", m, e), STALE_EXPECTED);
+                }
                 if t.len() >= 6 && rev && want.len() >= 3 && t.kind.iter().filter(|k| **k == Kind::PagesInd).count() == 1 && t.has_intermediate() && v > nv / 2
                     && sampled.fetch_add(1, Ordering::Relaxed) < 2
                 {
@@ -1403,10 +1460,17 @@ fn explore_valid(run: &Run, b: &Bounds, max_calls: &AtomicU64, watch: &Watch) {
                 }
             }
         }
-        run.eval(cases * 2);
+        run.eval(cases * 2 + stale * 2);
         nontrivial.iter().for_each(|h| run.nontrivial_hash(*h));
         run.add("valid", cases);
+        run.add("valid_with_stale_max_id", stale);
     });
+}
+
+/// Stale values of max_id for a document: 0, 1, highest number - 1, highest number + 100.
+fn stale_values(doc: &Document) -> Vec<u32> {
+    let hi = doc.objects.keys().map(|k| k.0).max().unwrap_or(1);
+    vec![0, 1, hi - 1, hi + 100]
 }
 
 fn explore_chains(run: &Run, max_calls: &AtomicU64, watch: &Watch) {
@@ -1432,6 +1496,18 @@ fn explore_chains(run: &Run, max_calls: &AtomicU64, watch: &Watch) {
             run.add("chains_exact", 1);
             if let Err(e) = watch.guarded(&c.to_json(), || check_valid(&b.doc, &want, max_calls)) {
                 run.fail(None, c.to_json(), &e, "page_iter() = depth-first left-to-right Page leaves; get_pages() numbered 1..n (at most 256 sibling lists pending)");
+            }
+            // the same tree under a stale max_id
+            for m in stale_values(&b.doc) {
+                let mut d = b.doc.clone();
+                d.max_id = m;
+                let mut case = c.to_json();
+                case["max_id"] = json!(m);
+                run.eval(2);
+                run.add("chains_and_wide_trees_with_stale_max_id", 1);
+                if let Err(e) = watch.guarded(&case, || check_valid_basic(&d, &want, max_calls)) {
+                    run.fail(None, case, &format!("max_id = {}: {}", m, e), STALE_EXPECTED);
+                }
             }
         } else {
             // more pending sibling lists than the documented limit: termination and type safety only
@@ -1519,7 +1595,18 @@ fn explore_wide(run: &Run, max_calls: &AtomicU64, watch: &Watch) {
         run.nontrivial(1);
         run.add("wide_trees", 1);
         if let Err(e) = watch.guarded(&case, || check_valid(&b.doc, &want, max_calls)) {
-            run.fail(None, case, &e, "page_iter() = depth-first left-to-right Page leaves; get_pages() = that list numbered 1..n");
+            run.fail(None, case.clone(), &e, "page_iter() = depth-first left-to-right Page leaves; get_pages() = that list numbered 1..n");
+        }
+        for m in stale_values(&b.doc) {
+            let mut d = b.doc.clone();
+            d.max_id = m;
+            let mut case = case.clone();
+            case["max_id"] = json!(m);
+            run.eval(2);
+            run.add("chains_and_wide_trees_with_stale_max_id", 1);
+            if let Err(e) = watch.guarded(&case, || check_valid_basic(&d, &want, max_calls)) {
+                run.fail(None, case, &format!("max_id = {}: {}", m, e), STALE_EXPECTED);
+            }
         }
     });
 }
@@ -1573,7 +1660,9 @@ fn model_pages(doc: &Document) -> Result<Vec<ObjectId>, String> {
         }
         let (id, node) = resolve_entry(doc, entry)?;
         let Object::Dictionary(d) = node else { return Err("page tree node that is not a dictionary".into()) };
-        match d.get(b"Type") {
+        // the value of Type may sit behind references like any other value
+        let ty = d.get(b"Type").map_err(|_| "page tree node without Type".to_string()).and_then(|o| resolve(doc, o)).map(|r| r.1);
+        match ty {
             Ok(Object::Name(n)) if n == b"Page" => {
                 out.push(id);
                 Ok(())
@@ -2338,6 +2427,32 @@ fn check_valid_chained(doc: &Document, want: &[ObjectId], chained: bool, max_cal
     Ok(())
 }
 
+/// check_valid / check_valid_chained, with the forms other than stepping and get_pages() optional.
+fn check_chained(doc: &Document, want: &[ObjectId], chained: bool, forms: bool, max_calls: &AtomicU64) -> Result<(), String> {
+    if forms {
+        return check_valid_chained(doc, want, chained, max_calls);
+    }
+    if !chained {
+        return check_valid_basic(doc, want, max_calls);
+    }
+    let d = drive(doc).map_err(|e| format!("page_iter: {}", e))?;
+    max_calls.fetch_max(d.calls as u64, Ordering::Relaxed);
+    if !d.finished || d.calls > doc.objects.len() + 1 {
+        return Err(format!("page_iter did not finish within objects.len()+1 = {} calls of next()", doc.objects.len() + 1));
+    }
+    let got: Vec<ObjectId> = d.yielded.iter().map(|id| resolve_id(doc, *id)).collect();
+    if got != want {
+        return Err(format!("page_iter yields {} which denote {}, depth-first left-to-right leaf pages are {}", ids_str(&d.yielded), ids_str(&got), ids_str(want)));
+    }
+    let m = util::guard(|| doc.get_pages()).map_err(|e| format!("get_pages: {}", e))?;
+    let keys: Vec<u32> = m.keys().cloned().collect();
+    let vals: Vec<ObjectId> = m.values().map(|id| resolve_id(doc, *id)).collect();
+    if keys != (1..=want.len() as u32).collect::<Vec<u32>>() || vals != want {
+        return Err(format!("get_pages is {:?}, expected (ids denoting) the leaf pages numbered 1..{}: {}", m, want.len(), ids_str(want)));
+    }
+    Ok(())
+}
+
 /// Termination and type safety only (used beyond the dereference limit).
 fn check_lenient_chained(doc: &Document, max_calls: &AtomicU64) -> Result<usize, String> {
     let d = drive(doc).map_err(|e| format!("page_iter: {}", e))?;
@@ -2450,6 +2565,662 @@ fn explore_refchains(run: &Run, max_calls: &AtomicU64, watch: &Watch) {
 
 fn run_hash(case: &Value) -> u64 {
     vharness::run::fnv(case.to_string().as_bytes())
+}
+
+// ---------------------------------------------------------------------------------------------
+// stale max_id family: a well-formed tree is a well-formed tree whatever Document::max_id says.
+// The objects are placed through the public `objects` map, every link of the tree (and /Type,
+// /Count) sits directly or behind 1-2 references, the numbers are dense / flipped / sparse, and
+// max_id is 0, 1, a number in the middle of the numbers in use, highest-1, highest, highest+100.
+
+const STALE_NUMBERINGS: [&str; 4] = ["asc", "rev", "flip", "sparse"];
+const STALE_MAX: [&str; 6] = ["zero", "one", "median", "highest_minus_1", "highest", "highest_plus_100"];
+
+/// The kinds of indirection of one tree: the plain tree, every link of the reference-chain family,
+/// /Type of each node / all nodes / all leaf pages, and everything at once.
+fn stale_links(t: &Tree) -> Vec<Value> {
+    let mut v = vec![json!({"site": "none"})];
+    v.extend(sites(t).iter().filter(|s| !matches!(s, Site::Parent(_))).map(|s| s.to_json()));
+    for i in 0..t.len() {
+        v.push(json!({"site": "type", "nodes": i}));
+    }
+    v.push(json!({"site": "type", "nodes": "all"}));
+    v.push(json!({"site": "everything"}));
+    v
+}
+
+/// Returns true when yielded ids may be heads of reference chains.
+fn apply_stale_link(t: &Tree, b: &mut Built, link: &Value, hops: usize) -> bool {
+    match link["site"].as_str().unwrap_or("") {
+        "none" => false,
+        "type" => {
+            apply_indirect_type(b, &indtype_nodes(t, &link["nodes"]), hops);
+            false
+        }
+        "everything" => {
+            apply_chain(t, b, &Site::AllLinks, hops);
+            for i in (0..t.len()).filter(|i| t.is_pages(*i)) {
+                apply_chain(t, b, &Site::Count(i), hops);
+            }
+            if t.len() > 1 {
+                apply_chain(t, b, &Site::AllEntries, hops);
+            }
+            apply_indirect_type(b, &(0..t.len()).collect::<Vec<_>>(), hops);
+            t.len() > 1
+        }
+        _ => {
+            let site = Site::from_json(link);
+            apply_chain(t, b, &site, hops);
+            site.entries_chained()
+        }
+    }
+}
+
+fn map_refs(o: &mut Object, f: &dyn Fn(ObjectId) -> ObjectId) {
+    match o {
+        Object::Reference(r) => *r = f(*r),
+        Object::Array(a) => a.iter_mut().for_each(|x| map_refs(x, f)),
+        Object::Dictionary(d) => d.iter_mut().for_each(|(_, v)| map_refs(v, f)),
+        Object::Stream(s) => s.dict.iter_mut().for_each(|(_, v)| map_refs(v, f)),
+        _ => {}
+    }
+}
+
+/// The same document under another numbering (public fields only). max_id is left for the caller.
+fn renumbered(doc: &Document, f: &dyn Fn(ObjectId) -> ObjectId) -> Document {
+    let mut d = Document::with_version("1.5");
+    for (id, o) in &doc.objects {
+        let mut o = o.clone();
+        map_refs(&mut o, f);
+        if d.objects.insert(f(*id), o).is_some() {
+            machinery("renumbering map is not one-to-one");
+        }
+    }
+    let mut tr = Object::Dictionary(doc.trailer.clone());
+    map_refs(&mut tr, f);
+    if let Object::Dictionary(tr) = tr {
+        d.trailer = tr;
+    }
+    d
+}
+
+/// The document of a stale-max_id case and its expected pages. `via` = "objects_insert": every object placed
+/// through the public map and max_id set by hand; "add_object": the document is assembled with
+/// new_object_id / add_object only, so max_id is whatever lopdf keeps (numbering asc, max mode ignored).
+fn stale_doc(t: &Tree, numbering: &str, link: &Value, hops: usize, max_mode: &str, via: &str) -> (Document, Vec<ObjectId>, bool) {
+    let mut b = build(t, numbering == "rev");
+    let want = expected_pages(t, &b);
+    let chained = apply_stale_link(t, &mut b, link, hops);
+    let highest = b.doc.objects.keys().map(|k| k.0).max().unwrap_or(0);
+    let f: Box<dyn Fn(ObjectId) -> ObjectId> = match numbering {
+        "asc" | "rev" => Box::new(|id| id),
+        "flip" => Box::new(move |id: ObjectId| (highest + 1 - id.0.min(highest), id.1)),
+        "sparse" => Box::new(|id: ObjectId| (id.0 * 997 + 3, id.1)),
+        _ => machinery("unknown numbering"),
+    };
+    let mut doc = renumbered(&b.doc, &*f);
+    let want: Vec<ObjectId> = want.iter().map(|p| f(*p)).collect();
+    let nums: Vec<u32> = doc.objects.keys().map(|k| k.0).collect();
+    let hi = *nums.last().unwrap();
+    if via == "add_object" {
+        let mut d = Document::with_version("1.5");
+        for (id, o) in &doc.objects {
+            while d.max_id + 1 < id.0 {
+                d.new_object_id();
+            }
+            let got = d.add_object(o.clone());
+            if got != *id {
+                machinery(&format!("add_object handed out {:?} where {:?} was planned", got, id));
+            }
+        }
+        d.trailer = doc.trailer.clone();
+        return (d, want, chained);
+    }
+    doc.max_id = match max_mode {
+        "zero" => 0,
+        "one" => 1,
+        "median" => nums[nums.len() / 2],
+        "highest_minus_1" => hi - 1,
+        "highest" => hi,
+        "highest_plus_100" => hi + 100,
+        _ => machinery("unknown max_id mode"),
+    };
+    (doc, want, chained)
+}
+
+fn stale_case(t: &Tree, numbering: &str, link: &Value, hops: usize, max_mode: &str, via: &str) -> Value {
+    json!({"kind": "stale_max_id", "tree": t.to_json(), "numbering": numbering, "link": link, "hops": hops, "max_id": max_mode, "via": via})
+}
+
+fn run_stale(case: &Value, forms: bool, mc: &AtomicU64) -> Result<(), String> {
+    let t = Tree::from_json(&case["tree"]);
+    let (doc, want, chained) = stale_doc(
+        &t,
+        case["numbering"].as_str().unwrap_or("asc"),
+        &case["link"],
+        case["hops"].as_u64().unwrap_or(1) as usize,
+        case["max_id"].as_str().unwrap_or("highest"),
+        case["via"].as_str().unwrap_or("objects_insert"),
+    );
+    match model_pages(&doc) {
+        Ok(m) if m == want => {}
+        other => machinery(&format!("stale family: document-level model {:?} disagrees with the tree-level model {:?} ({})", other, want, case)),
+    }
+    check_chained(&doc, &want, chained, forms, mc).map_err(|e| format!("max_id = {}, object numbers {:?}: {}", doc.max_id, doc.objects.keys().map(|k| k.0).collect::<Vec<_>>(), e))
+}
+
+const STALE_EXPECTED: &str = "Document::max_id is bookkeeping for handing out new ids; the page tree is what doc.objects and doc.trailer hold. Whatever max_id says (0, 1, a number in the middle, highest-1, highest, highest+100) and however the objects were placed (doc.objects.insert or add_object), a well-formed tree - links, /Type and /Count direct or behind 1-2 references - enumerates as page_iter() = depth-first left-to-right Page leaves, get_pages() = that list numbered 1..n";
+
+fn explore_stale(run: &Run, max_calls: &AtomicU64, watch: &Watch) {
+    let nodes = if run.thorough { 5 } else { 4 };
+    let mut work: Vec<Vec<Option<usize>>> = vec![];
+    for n in (1..=nodes).rev() {
+        work.extend(shapes(n));
+    }
+    let sampled = AtomicU64::new(0);
+    util::par_for(work.len(), |w| {
+        let parent = &work[w];
+        let opts = options(parent);
+        let mut cases = 0u64;
+        let mut nontrivial = Vec::<u64>::new();
+        for v in 0..n_variants(&opts) {
+            let t = Tree::from_parents(parent, variant(&opts, v));
+            for link in stale_links(&t) {
+                let hop_list: &[usize] = if link["site"] == "none" { &[1] } else { &[1, 2] };
+                for &hops in hop_list {
+                    let mut todo: Vec<Value> = vec![stale_case(&t, "asc", &link, hops, "kept_by_lopdf", "add_object")];
+                    for numbering in STALE_NUMBERINGS {
+                        for max_mode in STALE_MAX {
+                            todo.push(stale_case(&t, numbering, &link, hops, max_mode, "objects_insert"));
+                        }
+                    }
+                    for case in todo {
+                        cases += 1;
+                        // every form of the enumeration for the two extreme values, stepping + get_pages() for the others
+                        let forms = matches!(case["max_id"].as_str(), Some("zero") | Some("highest_minus_1") | Some("kept_by_lopdf"));
+                        if case["max_id"] != "highest" {
+                            nontrivial.push(run_hash(&case));
+                        }
+                        if let Err(e) = watch.guarded(&case, || run_stale(&case, forms, max_calls)) {
+                            run.fail(None, case.clone(), &e, STALE_EXPECTED);
+                        }
+                        if t.len() == 4 && hops == 2 && link["site"] == "everything" && case["max_id"] == "median" && case["numbering"] == "flip" && sampled.fetch_add(1, Ordering::Relaxed) < 1 {
+                            run.sample(case);
+                        }
+                    }
+                }
+            }
+        }
+        run.eval(cases * 2);
+        nontrivial.iter().for_each(|h| run.nontrivial_hash(*h));
+        run.add("stale_max_id_cases", cases);
+    });
+}
+
+// ---------------------------------------------------------------------------------------------
+// near-miss /Type names, in memory and in documents LOADED FROM BYTES written by the harness's own
+// serializer (classic cross-reference table), so that every spelling survives a load
+
+/// Names that are almost, but not exactly, Page or Pages.
+fn near_miss_names(full: bool) -> Vec<Vec<u8>> {
+    let mut v: Vec<Vec<u8>> = vec![];
+    for base in [&b"Page"[..], &b"Pages"[..]] {
+        let cat = |parts: &[&[u8]]| parts.concat();
+        v.push(cat(&[base, b"\0"]));
+        v.push(cat(&[base, b" "]));
+        v.push(base.to_ascii_lowercase());
+        v.push(cat(&[&base[..2], b"\0", &base[2..]]));
+        v.push(cat(&[base, b"#00"]));
+        if full {
+            for tail in [&b"\t"[..], b"\n", b"\r", b"\x0c", b"\0\0", b"\0X", b"#20", b"/", b"(", b"%", b"\xff", b"\x80", b"X", b"."] {
+                v.push(cat(&[base, tail]));
+            }
+            v.push(cat(&[b"\0", base]));
+            v.push(cat(&[b" ", base]));
+            v.push(cat(&[b"X", base]));
+            v.push(cat(&[&base[..2], b" ", &base[2..]]));
+            v.push(base.to_ascii_uppercase());
+            v.push(cat(&[base, base]));
+        }
+    }
+    v.push(b"Pag".to_vec());
+    v.push(b"Pagee".to_vec());
+    v.push(b"Pagess".to_vec());
+    if full {
+        v.push(b"Pa".to_vec());
+        v.push(b"P".to_vec());
+        v.push(vec![]);
+        v.push(b"Pages\0Page".to_vec());
+        v.push(b"Page\0s".to_vec());
+    }
+    v.retain(|n| n != b"Page" && n != b"Pages");
+    let mut seen = std::collections::BTreeSet::new();
+    v.retain(|n| seen.insert(n.clone()));
+    v
+}
+
+/// How the harness's serializer spells names.
+#[derive(Clone, Copy, PartialEq, Debug)]
+struct Spelling {
+    /// the Name that is the value of a /Type entry (or a whole object): "plain" | "second" (second
+    /// byte as #xx: /P#61ge) | "first" (/#50age) | "last" | "all" (every byte as #xx) | "lower_hex"
+    /// (every byte as #xx with lower-case hex digits)
+    type_value: &'static str,
+    /// dictionary keys with their second byte as #xx (/T#79pe, /K#69ds, /C#6Fount)
+    keys: bool,
+    /// what follows the /Type value: "space" | "nul" | "tab" | "ff" | "cr" | "crlf" | "comment" | "none"
+    /// (the next token starts with a delimiter, so no white space is needed)
+    after: &'static str,
+}
+
+const PLAIN: Spelling = Spelling { type_value: "plain", keys: false, after: "space" };
+
+impl Spelling {
+    fn to_json(self) -> Value {
+        json!({"type_value": self.type_value, "keys": self.keys, "after": self.after})
+    }
+    fn from_json(v: &Value) -> Spelling {
+        let pick = |s: &str, all: &[&'static str]| -> &'static str { all.iter().find(|x| **x == s).copied().unwrap_or_else(|| machinery("unknown spelling")) };
+        Spelling {
+            type_value: pick(v["type_value"].as_str().unwrap_or("plain"), &["plain", "second", "first", "last", "all", "lower_hex"]),
+            keys: v["keys"].as_bool().unwrap_or(false),
+            after: pick(v["after"].as_str().unwrap_or("space"), &["space", "nul", "tab", "ff", "cr", "crlf", "comment", "none"]),
+        }
+    }
+}
+
+/// A name token: bytes outside '!'..='~', delimiters and '#' always as #XX (ISO 32000-1 7.3.5); `force(i)` = also byte i.
+fn ser_name(out: &mut Vec<u8>, n: &[u8], force: &dyn Fn(usize) -> bool, lower: bool) {
+    out.push(b'/');
+    for (i, &c) in n.iter().enumerate() {
+        if force(i) || !(33..=126).contains(&c) || b"()<>[]{}/%#".contains(&c) {
+            out.extend_from_slice(if lower { format!("#{:02x}", c) } else { format!("#{:02X}", c) }.as_bytes());
+        } else {
+            out.push(c);
+        }
+    }
+}
+
+fn ser_type_value(out: &mut Vec<u8>, n: &[u8], sp: Spelling) {
+    let len = n.len();
+    match sp.type_value {
+        "plain" => ser_name(out, n, &|_| false, false),
+        "second" => ser_name(out, n, &|i| i == 1, false),
+        "first" => ser_name(out, n, &|i| i == 0, false),
+        "last" => ser_name(out, n, &|i| i + 1 == len, false),
+        "all" => ser_name(out, n, &|_| true, false),
+        "lower_hex" => ser_name(out, n, &|_| true, true),
+        _ => machinery("unknown type spelling"),
+    }
+}
+
+fn ser_object(out: &mut Vec<u8>, o: &Object, sp: Spelling, is_type_value: bool) {
+    match o {
+        Object::Null => out.extend_from_slice(b"null"),
+        Object::Boolean(b) => out.extend_from_slice(if *b { b"true" } else { b"false" }),
+        Object::Integer(i) => out.extend_from_slice(i.to_string().as_bytes()),
+        Object::Name(n) if is_type_value => ser_type_value(out, n, sp),
+        Object::Name(n) => ser_name(out, n, &|_| false, false),
+        Object::Reference(r) => out.extend_from_slice(format!("{} {} R", r.0, r.1).as_bytes()),
+        Object::Array(a) => {
+            out.push(b'[');
+            for (i, x) in a.iter().enumerate() {
+                if i > 0 {
+                    out.push(b' ');
+                }
+                ser_object(out, x, sp, false);
+            }
+            out.push(b']');
+        }
+        Object::Dictionary(d) => {
+            out.extend_from_slice(b"<<");
+            // /Type last when nothing is to follow its value
+            let mut entries: Vec<(&Vec<u8>, &Object)> = d.iter().collect();
+            if sp.after == "none" {
+                entries.sort_by_key(|(k, _)| k.as_slice() == b"Type");
+            }
+            for (k, v) in entries {
+                out.push(b' ');
+                ser_name(out, k, &|i| sp.keys && i == 1, false);
+                out.push(b' ');
+                let ty = k.as_slice() == b"Type";
+                ser_object(out, v, sp, ty);
+                if ty && matches!(v, Object::Name(_)) {
+                    match sp.after {
+                        "space" | "none" => {}
+                        "nul" => out.push(0),
+                        "tab" => out.push(b'\t'),
+                        "ff" => out.push(0x0c),
+                        "cr" => out.push(b'\r'),
+                        "crlf" => out.extend_from_slice(b"\r\n"),
+                        "comment" => out.extend_from_slice(b"% /Foo\n"),
+                        _ => machinery("unknown separator"),
+                    }
+                }
+            }
+            out.extend_from_slice(if sp.after == "none" { b">>" } else { b" >>" });
+        }
+        _ => machinery("the harness's serializer writes null, booleans, integers, names, references, arrays and dictionaries only"),
+    }
+}
+
+/// One file for several documents with disjoint object numbers, each written in its own spelling: header, the
+/// objects in ascending order, a classic cross-reference table with free entries for unused numbers, a trailer
+/// with /Size and the trailer entries of the first document.
+fn ser_file(parts: &[(&Document, Spelling)]) -> Vec<u8> {
+    let mut out = b"%PDF-1.5\n%\xE2\xE3\xCF\xD3\n".to_vec();
+    let max = parts.iter().flat_map(|p| p.0.objects.keys()).map(|k| k.0).max().unwrap_or(0) as usize;
+    let mut offsets: Vec<Option<(usize, u16)>> = vec![None; max + 1];
+    for (doc, sp) in parts {
+        for (id, o) in &doc.objects {
+            if offsets[id.0 as usize].is_some() {
+                machinery("ser_file: object number used twice");
+            }
+            offsets[id.0 as usize] = Some((out.len(), id.1));
+            out.extend_from_slice(format!("{} {} obj\n", id.0, id.1).as_bytes());
+            // a whole object that is a name (the target of an indirect /Type) is spelled like a /Type value
+            ser_object(&mut out, o, *sp, true);
+            out.extend_from_slice(b"\nendobj\n");
+        }
+    }
+    let xref_at = out.len();
+    out.extend_from_slice(format!("xref\n0 {}\n", max + 1).as_bytes());
+    out.extend_from_slice(b"0000000000 65535 f \n");
+    for e in offsets.iter().skip(1) {
+        match e {
+            Some((off, g)) => out.extend_from_slice(format!("{:010} {:05} n \n", off, g).as_bytes()),
+            None => out.extend_from_slice(b"0000000000 00000 f \n"),
+        }
+    }
+    out.extend_from_slice(format!("trailer\n<< /Size {}", max + 1).as_bytes());
+    if let Some((doc, _)) = parts.first() {
+        for (k, v) in doc.trailer.iter() {
+            out.push(b' ');
+            ser_name(&mut out, k, &|_| false, false);
+            out.push(b' ');
+            ser_object(&mut out, v, PLAIN, false);
+        }
+    }
+    out.extend_from_slice(format!(" >>\nstartxref\n{}\n%%EOF\n", xref_at).as_bytes());
+    out
+}
+
+fn show_bytes(bytes: &[u8]) -> String {
+    let mut s = String::new();
+    for &c in bytes {
+        match c {
+            b'\n' => s.push('\n'),
+            32..=126 => s.push(c as char),
+            _ => s.push_str(&format!("<{:02X}>", c)),
+        }
+    }
+    s
+}
+
+/// Type safety against the document AS WRITTEN: termination, every form agrees, and every yielded id is a page
+/// object of `mem` (the in-memory document the file was written from), not merely of what the loader made of it.
+fn check_loaded_lenient(mem: &Document, loaded: &Document, mc: &AtomicU64) -> Result<Vec<ObjectId>, String> {
+    let d = drive(loaded).map_err(|e| format!("page_iter: {}", e))?;
+    mc.fetch_max(d.calls as u64, Ordering::Relaxed);
+    if !d.finished || d.calls > loaded.objects.len() + 1 {
+        return Err(format!("page_iter did not finish within objects.len()+1 = {} calls of next()", loaded.objects.len() + 1));
+    }
+    for id in &d.yielded {
+        if !is_page_object(mem, *id) {
+            let ty = match mem.objects.get(id) {
+                Some(Object::Dictionary(dd)) => match dd.get(b"Type") {
+                    Ok(Object::Name(n)) => format!("the {}-byte name \"{}\"", n.len(), show_bytes(n)),
+                    Ok(Object::Reference(r)) => format!("{} {} R (-> {})", r.0, r.1, match resolve(mem, &Object::Reference(*r)) {
+                        Ok((_, Object::Name(n))) => format!("the {}-byte name \"{}\"", n.len(), show_bytes(n)),
+                        _ => "no name".to_string(),
+                    }),
+                    Ok(_) => "not a name".into(),
+                    Err(_) => "absent".into(),
+                },
+                _ => "(not a dictionary)".into(),
+            };
+            return Err(format!("page_iter on the loaded file yields {} {} R, whose /Type as written is {} - not the name Page", id.0, id.1, ty));
+        }
+    }
+    check_forms(loaded, &d.yielded, false, true, &|_| {})?;
+    let m = util::guard(|| loaded.get_pages()).map_err(|e| format!("get_pages: {}", e))?;
+    validate_numbering(mem, &m)?;
+    Ok(d.yielded)
+}
+
+fn near_doc(t: &Tree, rev: bool, node: usize, nm: &[u8], type_hops: usize) -> Document {
+    let mut b = build(t, rev);
+    dict_mut(&mut b.doc, b.node[node]).set("Type", Object::Name(nm.to_vec()));
+    if type_hops > 0 {
+        apply_indirect_type(&mut b, &[node], type_hops);
+    }
+    b.doc
+}
+
+fn near_case(t: &Tree, rev: bool, node: usize, nm: &[u8], type_hops: usize, leg: &str, sp: Spelling) -> Value {
+    json!({"kind": "near_miss_type", "tree": t.to_json(), "rev": rev, "node": node, "name_bytes": nm, "name_for_reading": show_bytes(nm),
+           "type_behind_hops": type_hops, "leg": leg, "spelling": sp.to_json()})
+}
+
+fn spelled_case(t: &Tree, rev: bool, sp: Spelling, type_hops: usize) -> Value {
+    json!({"kind": "spelled", "tree": t.to_json(), "rev": rev, "spelling": sp.to_json(), "type_behind_hops": type_hops, "leg": "file"})
+}
+
+fn name_bytes(v: &Value) -> Vec<u8> {
+    v.as_array().map(|a| a.iter().map(|x| x.as_u64().unwrap_or(0) as u8).collect()).unwrap_or_default()
+}
+
+/// The in-memory document of a near-miss / respelled case and, for a respelled valid tree, its expected pages.
+fn file_case_doc(case: &Value) -> (Document, Option<Vec<ObjectId>>) {
+    let t = Tree::from_json(&case["tree"]);
+    let rev = case["rev"].as_bool().unwrap_or(false);
+    let hops = case["type_behind_hops"].as_u64().unwrap_or(0) as usize;
+    match case["kind"].as_str() {
+        Some("near_miss_type") => (near_doc(&t, rev, case["node"].as_u64().unwrap_or(0) as usize, &name_bytes(&case["name_bytes"]), hops), None),
+        Some("spelled") => {
+            let mut b = build(&t, rev);
+            let want = expected_pages(&t, &b);
+            if hops > 0 {
+                apply_indirect_type(&mut b, &(0..t.len()).collect::<Vec<_>>(), hops);
+            }
+            (b.doc, Some(want))
+        }
+        _ => machinery("not a file case"),
+    }
+}
+
+/// Run the file legs of several cases through ONE file: the documents are renumbered onto disjoint number ranges,
+/// written into one file (legs "file": the harness's serializer, each document in its own spelling; leg
+/// "lopdf_writer": Document::save_to with a classic table), loaded once, and the loaded objects of each range are
+/// placed into a Document of their own whose trailer names that range's catalog. Then per case: near-miss names -
+/// termination, agreement of the forms, and only ids whose /Type AS WRITTEN is Page; respelled valid trees - the
+/// exact verdict. Returns one result per case, or Err when the file as a whole does not load to the objects written.
+fn run_file_batch(cases: &[Value], mc: &AtomicU64) -> Result<Vec<Result<String, String>>, String> {
+    let mut mems: Vec<(Document, Option<Vec<ObjectId>>, Spelling)> = vec![];
+    let mut next = 0u32;
+    for case in cases {
+        let (doc, want) = file_case_doc(case);
+        let off = next;
+        let f = move |id: ObjectId| (id.0 + off, id.1);
+        let mut d = renumbered(&doc, &f);
+        d.max_id = d.objects.keys().map(|k| k.0).max().unwrap_or(off);
+        next = d.max_id;
+        mems.push((d, want.map(|w| w.iter().map(|p| f(*p)).collect()), Spelling::from_json(&case["spelling"])));
+    }
+    let lopdf_writer = cases.iter().all(|c| c["leg"] == "lopdf_writer");
+    if !lopdf_writer && cases.iter().any(|c| c["leg"] != "file") {
+        machinery("a file batch mixes writers");
+    }
+    let bytes = if lopdf_writer {
+        let mut all = Document::with_version("1.5");
+        for (d, _, _) in &mems {
+            all.objects.extend(d.objects.iter().map(|(k, v)| (*k, v.clone())));
+        }
+        all.trailer = mems[0].0.trailer.clone();
+        all.max_id = next;
+        util::save_bytes(&all, true).map_err(|e| format!("Document::save_to of the in-memory documents: {}", e))?
+    } else {
+        ser_file(&mems.iter().map(|m| (&m.0, m.2)).collect::<Vec<_>>())
+    };
+    let show = || if bytes.len() <= 3000 { format!("; file:\n{}", show_bytes(&bytes)) } else { String::new() };
+    let loaded = util::load(&bytes).map_err(|e| format!("the file does not load: {}{}", e, show()))?;
+    let written: Vec<ObjectId> = mems.iter().flat_map(|m| m.0.objects.keys().cloned()).collect();
+    let got: Vec<ObjectId> = loaded.objects.keys().cloned().collect();
+    if written != got {
+        return Err(format!("the file was written with {} objects {:?} but loads with {} objects {:?}{}", written.len(), &written[..written.len().min(30)], got.len(), &got[..got.len().min(30)], show()));
+    }
+    let mut out = vec![];
+    for (mem, want, _) in &mems {
+        let (lo, hi) = (*mem.objects.keys().next().unwrap(), *mem.objects.keys().next_back().unwrap());
+        let mut sub = Document::with_version("1.5");
+        sub.objects = loaded.objects.range(lo..=hi).map(|(k, v)| (*k, v.clone())).collect();
+        sub.trailer = mem.trailer.clone();
+        sub.max_id = hi.0;
+        out.push(match want {
+            None => check_loaded_lenient(mem, &sub, mc).map(|got| format!("loaded from bytes: terminates, yields {}", ids_str(&got))),
+            Some(w) => check_valid(&sub, w, mc).map(|_| format!("loaded from bytes: pages {}", ids_str(w))),
+        });
+    }
+    Ok(out)
+}
+
+/// One case on its own (the replay, and the confirmation of a failure seen in a batch).
+fn run_file_case(case: &Value, mc: &AtomicU64) -> Result<String, String> {
+    if case["leg"] == "memory" {
+        let (mem, _) = file_case_doc(case);
+        let got = check_lenient_all(&mem, mc, true)?;
+        check_get_pages_lenient(&mem)?;
+        return Ok(format!("in memory: terminates, yields {}", ids_str(&got)));
+    }
+    run_file_batch(std::slice::from_ref(case), mc)?.pop().unwrap_or_else(|| machinery("empty batch result"))
+}
+
+const NEAR_EXPECTED: &str = "a node whose /Type is a name that merely resembles Page or Pages (a trailing or embedded NUL, space-like byte, other case, a prefix or an extension) is an ill-typed node: enumeration terminates within objects.len()+1 calls of next(), every form agrees, and every yielded id is a dictionary whose /Type - as written in the file / held in memory - is exactly the four bytes Page";
+
+const SPELLED_EXPECTED: &str = "#xx in a name is a spelling of the byte xx (ISO 32000-1 7.3.5): /P#61ge IS /Page, /#50#61#67#65#73 IS /Pages, /K#69ds IS /Kids, and a NUL, TAB, FF, CR or a comment after a name ends the name like a space does. The loaded file is the same well-formed tree: page_iter() = depth-first left-to-right Page leaves, get_pages() numbered 1..n, in every form";
+
+fn spellings() -> Vec<Spelling> {
+    let mut v = vec![];
+    for type_value in ["plain", "second", "first", "last", "all", "lower_hex"] {
+        for keys in [false, true] {
+            v.push(Spelling { type_value, keys, after: "space" });
+        }
+    }
+    for after in ["nul", "tab", "ff", "cr", "crlf", "comment", "none"] {
+        v.push(Spelling { type_value: "plain", keys: false, after });
+        v.push(Spelling { type_value: "second", keys: true, after });
+    }
+    v
+}
+
+/// Size of a file batch (documents per file).
+const FILE_BATCH: usize = 192;
+
+fn explore_near_miss(run: &Run, max_calls: &AtomicU64, watch: &Watch) {
+    // all names on every node of every tree up to `small` nodes; the short list up to `big` nodes
+    let (small, big) = if run.thorough { (4, 5) } else { (3, 4) };
+    let mut work: Vec<Tree> = vec![];
+    for n in (1..=big).rev() {
+        for parent in shapes(n) {
+            let opts = options(&parent);
+            for v in 0..n_variants(&opts) {
+                work.push(Tree::from_parents(&parent, variant(&opts, v)));
+            }
+        }
+    }
+    let (all_names, short_names) = (near_miss_names(true), near_miss_names(false));
+    run.set("near_miss_type_names", json!(all_names.iter().map(|n| show_bytes(n)).collect::<Vec<_>>()));
+    let sps = spellings();
+    let sampled = AtomicU64::new(0);
+    let fail_of = |case: &Value| if case["kind"] == "spelled" { SPELLED_EXPECTED } else { NEAR_EXPECTED };
+    util::par_for(work.len(), |w| {
+        let t = &work[w];
+        let names = if t.len() <= small { &all_names } else { &short_names };
+        let (mut mem_cases, mut file_cases, mut spelled) = (0u64, 0u64, 0u64);
+        // file legs are collected and run through one file per FILE_BATCH documents
+        let mut own: Vec<Value> = vec![];
+        let mut lopdf: Vec<Value> = vec![];
+        let is_small = t.len() <= small;
+        for rev in [false, true] {
+            for node in 0..t.len() {
+                for nm in names.iter() {
+                    for type_hops in [0usize, 1] {
+                        if is_small || type_hops == 0 {
+                            let case = near_case(t, rev, node, nm, type_hops, "memory", PLAIN);
+                            mem_cases += 1;
+                            run.nontrivial_hash(run_hash(&case));
+                            if let Err(e) = watch.guarded(&case, || run_file_case(&case, max_calls)) {
+                                run.fail(None, case.clone(), &e, NEAR_EXPECTED);
+                            }
+                        }
+                        own.push(near_case(t, rev, node, nm, type_hops, "file", PLAIN));
+                        if type_hops == 0 && is_small {
+                            own.push(near_case(t, rev, node, nm, 0, "file", Spelling { type_value: "last", keys: false, after: "space" }));
+                            own.push(near_case(t, rev, node, nm, 0, "file", Spelling { type_value: "second", keys: true, after: "nul" }));
+                            lopdf.push(near_case(t, rev, node, nm, 0, "lopdf_writer", PLAIN));
+                        }
+                    }
+                }
+            }
+            // the same names in other spellings: exact verdict (larger trees: every fourth spelling, /Type direct)
+            for (k, sp) in sps.iter().enumerate() {
+                for type_hops in [0usize, 1] {
+                    if is_small || (k % 4 == 1 && type_hops == 0) {
+                        own.push(spelled_case(t, rev, *sp, type_hops));
+                    }
+                }
+            }
+        }
+        for group in own.chunks(FILE_BATCH).chain(lopdf.chunks(FILE_BATCH)) {
+            for c in group {
+                if c["kind"] == "spelled" {
+                    spelled += 1;
+                } else {
+                    file_cases += 1;
+                }
+                run.nontrivial_hash(run_hash(c));
+            }
+            let batch_case = json!({"kind": "file_batch", "cases": group});
+            match watch.guarded(&batch_case, || run_file_batch(group, max_calls)) {
+                Ok(results) => {
+                    for (c, r) in group.iter().zip(results) {
+                        if let Err(e) = r {
+                            // confirm on a file of its own; a failure that shows only inside the batch is reported with the batch
+                            match run_file_case(c, max_calls) {
+                                Err(e1) => run.fail(None, c.clone(), &e1, fail_of(c)),
+                                Ok(_) => run.fail(None, json!({"kind": "file_batch", "cases": group, "failing": c}), &format!("in a file holding {} documents: {}", group.len(), e), fail_of(c)),
+                            }
+                        }
+                    }
+                }
+                Err(e) => {
+                    // the file as a whole does not load to what was written: find the documents that do not load alone
+                    let mut singled = 0;
+                    for c in group {
+                        if let Err(e1) = run_file_case(c, max_calls) {
+                            singled += 1;
+                            if singled <= 3 {
+                                run.fail(None, c.clone(), &e1, fail_of(c));
+                            }
+                        }
+                    }
+                    if singled == 0 {
+                        run.fail(None, batch_case, &e, "a file written by the harness's serializer loads to exactly the objects written");
+                    }
+                }
+            }
+            if t.len() == 3 && sampled.fetch_add(1, Ordering::Relaxed) < 1 {
+                if let Some(c) = group.iter().find(|c| c["kind"] == "near_miss_type" && c["node"] == 2) {
+                    let (mem, _) = file_case_doc(c);
+                    run.sample(json!({"case": c, "file_written_for_this_case_alone": show_bytes(&ser_file(&[(&mem, Spelling::from_json(&c["spelling"]))]))}));
+                }
+            }
+        }
+        run.eval(mem_cases * 2 + (file_cases + spelled) * 3);
+        run.add("near_miss_type_in_memory", mem_cases);
+        run.add("near_miss_type_loaded_from_bytes", file_cases);
+        run.add("valid_trees_respelled_loaded_from_bytes", spelled);
+    });
 }
 
 fn explore_malformed(run: &Run, b: &Bounds, max_calls: &AtomicU64, watch: &Watch) {
@@ -2577,8 +3348,11 @@ fn replay(run: &Run, path: &std::path::Path) -> ! {
         Some("chain") => {
             let c = Chain::from_json(&case);
             let t = c.tree();
-            let b = build(&t, c.rev);
+            let mut b = build(&t, c.rev);
             let want = expected_pages(&t, &b);
+            if let Some(m) = case["max_id"].as_u64() {
+                b.doc.max_id = m as u32;
+            }
             if c.max_pending() <= LIMIT {
                 say("valid chain", check_valid(&b.doc, &want, &dummy).map(|_| format!("{} pages in depth-first order", want.len())));
             } else {
@@ -2606,8 +3380,11 @@ fn replay(run: &Run, path: &std::path::Path) -> ! {
         }
         Some("wide") => {
             let t = wide_tree(case["form"].as_str().unwrap_or(""), case["width"].as_u64().unwrap_or(1) as usize, case["indirect"].as_bool().unwrap_or(false));
-            let b = build(&t, case["rev"].as_bool().unwrap_or(false));
+            let mut b = build(&t, case["rev"].as_bool().unwrap_or(false));
             let want = expected_pages(&t, &b);
+            if let Some(m) = case["max_id"].as_u64() {
+                b.doc.max_id = m as u32;
+            }
             say("wide tree", check_valid(&b.doc, &want, &dummy).map(|_| format!("{} pages in depth-first order", want.len())));
         }
         Some("history") => {
@@ -2660,6 +3437,30 @@ fn replay(run: &Run, path: &std::path::Path) -> ! {
                 println!("predicate of {}: {}", INDTYPE, indtype_predicate(&t, rev, &case["nodes"], &bb.doc));
             }
             say(&format!("/Type of node(s) {} behind {} reference hop(s)", case["nodes"], hops), r.map(|_| "same enumeration as with direct /Type entries".to_string()));
+        }
+        Some("stale_max_id") => {
+            let t = Tree::from_json(&case["tree"]);
+            let (doc, want, _) = stale_doc(&t, case["numbering"].as_str().unwrap_or("asc"), &case["link"], case["hops"].as_u64().unwrap_or(1) as usize, case["max_id"].as_str().unwrap_or("highest"), case["via"].as_str().unwrap_or("objects_insert"));
+            println!("document: max_id = {}, objects {}", doc.max_id, doc_to_json(&doc));
+            say(&format!("link {} behind {} hop(s), max_id {}", case["link"], case["hops"], case["max_id"]), run_stale(&case, true, &dummy).map(|_| format!("pages {}", ids_str(&want))));
+        }
+        Some("near_miss_type") | Some("spelled") => {
+            if case["leg"] == "file" {
+                let (mem, _) = file_case_doc(&case);
+                println!("file written:\n{}", show_bytes(&ser_file(&[(&mem, Spelling::from_json(&case["spelling"]))])));
+            }
+            let what = if case["kind"] == "spelled" { format!("valid tree respelled {}", case["spelling"]) } else { format!("node {} typed {}", case["node"], case["name_for_reading"]) };
+            say(&what, run_file_case(&case, &dummy));
+        }
+        Some("file_batch") => {
+            let group: Vec<Value> = case["cases"].as_array().cloned().unwrap_or_default();
+            match run_file_batch(&group, &dummy) {
+                Err(e) => say("file holding several documents", Err(e)),
+                Ok(rs) => {
+                    let bad: Vec<String> = group.iter().zip(rs.iter()).filter_map(|(c, r)| r.as_ref().err().map(|e| format!("{}: {}", c, e))).collect();
+                    say(&format!("file holding {} documents", group.len()), if bad.is_empty() { Ok("every document enumerates as demanded".into()) } else { Err(bad.join(" | ")) });
+                }
+            }
         }
         _ => machinery("unknown replay kind"),
     }
@@ -2719,11 +3520,29 @@ fn main() {
          1 or 2 reference hops away - exact verdict. Kid cycles with fan-out (every case in a child process of this binary, each case under a CPU budget of {} ms and RLIMIT_AS 2 GiB): \
          root Kids = [0..1 pages, M1, 0..1 pages]; M1 Kids = every string over {{fresh page, back edge}} of length 1..{} with at least one back edge, the back edge pointing to M1 itself / \
          to the root / to a partner M2 whose Kids is again every such string (length <= {}) with back edges to M1; Count of every node on the cycle in {{absent, 0, -1, 1, 2^62, a name}}; \
-         Kids arrays direct / separate objects",
+         Kids arrays direct / separate objects. \
+         STALE max_id (all documents of all families are assembled through the public `objects` map): every valid tree with <= {} nodes x every kind of indirection (none; each Kids value, \
+         each kid entry, each Count, the catalog's Pages, the trailer's Root, all links, all kid entries, /Type of each node, /Type of all nodes, everything at once) behind 1 and 2 references x \
+         numbering (dense ascending, dense reversed, flipped = the referenced helper objects get the LOWEST numbers, sparse n*997+3) x max_id in {{0, 1, the median number in use, highest-1, highest, \
+         highest+100}} - so the targets of the references lie above and below max_id - plus the same document assembled with new_object_id/add_object only; exact verdict (every form for max_id 0, \
+         highest-1 and the add_object build, stepping + get_pages() for the rest). Every tree of the valid family once more under one of max_id 0 / 1 / highest-1 / highest+100 (in rotation), every \
+         chain and every wide tree under all four. \
+         NEAR-MISS /Type names (list under near_miss_type_names: Page and Pages with a trailing / leading / embedded NUL, space, TAB, LF, CR, FF, #00 and #20 as literal characters, a delimiter, a \
+         high byte, other case, a prefix, an extension, doubled): trees with <= {} nodes x ids ascending/reversed x every node x every name, trees with <= {} nodes x the short list (NUL, space, \
+         lower case, embedded NUL, literal #00, Pag, Pagee, Pagess), /Type direct or 1 reference away - IN MEMORY (Object::Name with those bytes) and LOADED FROM BYTES: the harness's own serializer \
+         (header, objects, classic cross-reference table, trailer; bytes outside '!'..'~', delimiters and '#' as #XX) writes the documents - {} per file on disjoint number ranges, each confirmed \
+         on a file of its own when it fails - Document::load_mem loads them, and every yielded id must be a page BY THE /Type AS WRITTEN; small trees also in two other spellings (last byte as #xx; \
+         second byte and keys as #xx with a NUL after the name) and through lopdf's own writer (save_to, load_mem). RESPELLED valid trees (exact verdict on the loaded file): /Type values plain / \
+         first / second / last / every byte as #xx / every byte as lower-case #xx x keys plain or with the second byte as #xx, and a NUL / TAB / FF / CR / CRLF / comment / nothing (the next token is \
+         a delimiter) after the /Type value; /Type direct or 1 reference away (larger trees: every fourth spelling). Further ill-typed nodes in the malformed family: /Type behind a reference with \
+         the right number and a generation no object has, to a missing object, to an integer, to the name with a trailing NUL, to an alias whose own target is stale",
         b.valid_nodes, b.mutated_nodes,
         if run.thorough { 4 } else { 3 }, if run.thorough { 5 } else { 4 }, if run.thorough { 6 } else { 5 }, if run.thorough { 5 } else { 4 },
-        if run.thorough { 5 } else { 4 }, CASE_CPU_MS, if run.thorough { 5 } else { 4 }, if run.thorough { 4 } else { 3 }
+        if run.thorough { 5 } else { 4 }, CASE_CPU_MS, if run.thorough { 5 } else { 4 }, if run.thorough { 4 } else { 3 },
+        if run.thorough { 5 } else { 4 }, if run.thorough { 4 } else { 3 }, if run.thorough { 5 } else { 4 }, FILE_BATCH
     ));
+    run.assume("Document::max_id is the counter new_object_id/add_object hand out ids from; it is a public field that objects.insert does not maintain, and nothing in the statement makes the page tree depend on it: a document whose max_id is lower or higher than its highest object number has the same page tree");
+    run.assume("near-miss legs loaded from bytes: a name is the byte sequence after #xx decoding (ISO 32000-1 7.3.5), so /Page#00 is the five-byte name Page+NUL (an ill-typed node) and /P#61ge is the name Page (a page); the reference for 'is a page object' is the in-memory document the file was written from, never what the loader returned. Documents are batched into one file per 192 (disjoint object numbers, loaded objects of each range moved into a Document of their own); a failing case is re-run on a file of its own and that run is the replay");
     run.assume("a case of the kid-cycle family (and get_pages()/collect on a tree with an extreme Count) that uses more than its CPU budget in a child process is reported as not terminating: the unchanged tree needs microseconds for such a case, the budget is 500 ms of CPU time (not wall time), and the replay runs the same child");
     run.assume("any dictionary value may be an indirect reference (ISO 32000-1 7.3.10), so a node whose /Type is `9 0 R` with `9 0 obj /Page` is a page: the indirect-Type family demands the full enumeration (open finding pagetree-indirect-type)");
     run.assume("size_hint() is part of the enumeration's interface: on a well-formed tree with correct Counts its bounds must enclose the number of pages still to come at every step; on malformed trees it only has to return with lower <= upper");
@@ -2751,6 +3570,11 @@ fn main() {
         explore_refchains(&run, &max_calls, &watch);
         run.set("wall_after_refchains_s", json!((run.elapsed() * 10.0).round() / 10.0));
         explore_indirect_type(&run, &max_calls, &watch);
+        run.set("wall_after_indirect_type_s", json!((run.elapsed() * 10.0).round() / 10.0));
+        explore_stale(&run, &max_calls, &watch);
+        run.set("wall_after_stale_max_id_s", json!((run.elapsed() * 10.0).round() / 10.0));
+        explore_near_miss(&run, &max_calls, &watch);
+        run.set("wall_after_near_miss_s", json!((run.elapsed() * 10.0).round() / 10.0));
         explore_cycles(&run);
         watch.done.store(true, Ordering::SeqCst);
     });
